@@ -294,6 +294,7 @@ func run(t failer, c Case) Result {
 	if c.Before == nil && !poisonOff {
 		c.Before = poisonFor(c)
 	}
+	leaveCrumb(c)
 	applyBefore(c.Before)
 	r := pred(c)
 	if len(c.Before) > 0 {
